@@ -11,6 +11,7 @@ import (
 	"fmt"
 	"math"
 	"math/big"
+	"math/cmplx"
 	"strings"
 
 	"github.com/tuneinsight/lattigo/v6/core/rlwe"
@@ -491,6 +492,14 @@ func c16CKKS(c *Ctx, ns []int) {
 					})
 				}
 				c16OutSet, c16UseWithParams = nil, false
+			}
+			// every (Decode, Encode) × input IsBatched, same and other output parameters, full and sparse packing
+			if ni < 2 || c.Thorough() {
+				for _, os := range []c16CKKSSet{set, *c16CKKSOutFor(set)} {
+					for _, ls := range []int{set.cp.LogMaxSlots(), set.cp.LogMaxSlots() - 1} {
+						c14Guard(c, "C16-harness-panic", "c16CKKSFlagMatrix", func() { c16CKKSFlagMatrix(c, set, os, n, ls) })
+					}
+				}
 			}
 			// a level below the minimum: the mask bound exceeds Q and GenShare must refuse
 			c14Guard(c, "C16-harness-panic", "c16CKKSTooLow", func() { c16CKKSTooLow(c, set, n) })
@@ -1195,4 +1204,260 @@ func c16CKKSTransform(set c16CKKSSet, fn *c16CKKSFunc, prec uint, md *rlwe.MetaD
 		mask[i].Quo(mask[i], inScale)
 	}
 	return mask
+}
+
+// ---------------------------------------------------------------------------------------------
+// masked transform over all (Decode, Encode) × input IsBatched: documented refusals, output metadata, value
+
+// c16CKKSFlagMatrix runs the n-party masked transform for every combination of transform.Decode,
+// transform.Encode (and transform = nil) and of the input's IsBatched flag.  As documented:
+// Decode on a coefficient-encoded input and Encode-without-Decode on a slot-encoded input are refused
+// (GenShare and Transform return an error); otherwise the output is labelled IsBatched = transform.Encode
+// (the input's flag when transform = nil), keeps the input's LogDimensions / IsNTT / IsMontgomery, has the
+// default scale of the OUTPUT parameters, and holds f(message): with z_i = c_i + i·c_(i+slots) the vector
+// given to f (the slot values when decoding, the coefficient pairs otherwise), the output holds f(z) as slot
+// values (Encode) or as coefficient pairs (no Encode).
+func c16CKKSFlagMatrix(c *Ctx, set c16CKKSSet, oset c16CKKSSet, n, logSlots int) {
+	params, oparams := set.params, oset.params
+	keys := c14GenKeys(set.c14Set, n)
+	okeys := keys
+	if oset.name != set.name {
+		okeys = c14GenKeys(oset.c14Set, n)
+	}
+	flood := ring.DiscreteGaussian{Sigma: 3.2, Bound: 19.2}
+	minLevel, logBound, ok := mpckks.GetMinimumLevelForRefresh(8, set.cp.DefaultScale(), n, set.q)
+	if !ok || minLevel > set.maxQ() {
+		c.Count("ckks_flag_matrix_skipped(no level)")
+		return
+	}
+	lin := set.maxQ()
+	lout := c.rng.Intn(oset.maxQ() + 1)
+	{
+		need := new(big.Int).Lsh(big.NewInt(int64(n)), logBound-1)
+		need.Add(need, new(big.Int).Lsh(big.NewInt(1), uint(set.cp.LogDefaultScale()+2)))
+		need.Lsh(need, 1)
+		if need.Cmp(params.RingQ().ModulusAtLevel[lin]) >= 0 {
+			c.Count("ckks_flag_matrix_skipped(outside the no-wrap condition)")
+			return
+		}
+	}
+	slots := 1 << logSlots
+	dslots := 2 * slots
+	gap := set.n / dslots
+	scaleF := func(v []*bignum.Complex) {
+		for i := range v {
+			v[i][0].Mul(v[i][0], big.NewFloat(0.75))
+			v[i][1].Mul(v[i][1], big.NewFloat(0.75))
+		}
+	}
+	rot := func(v []*bignum.Complex) { // cyclic shift by one position
+		first := v[0]
+		copy(v, v[1:])
+		v[len(v)-1] = first
+	}
+	type tfc struct {
+		name           string
+		isNil          bool
+		decode, encode bool
+		f              func([]*bignum.Complex)
+	}
+	var tfs []tfc
+	tfs = append(tfs, tfc{name: "nil", isNil: true})
+	for _, d := range []bool{false, true} {
+		for _, e := range []bool{false, true} {
+			f, fname := scaleF, "scale"
+			if c.rng.Intn(2) == 0 {
+				f, fname = rot, "shift"
+			}
+			tfs = append(tfs, tfc{name: fmt.Sprintf("Decode=%t,Encode=%t,f=%s", d, e, fname), decode: d, encode: e, f: f})
+		}
+	}
+	crs := c16PRNG(c.rng.Bytes(32))
+	Bn := c16Bound(c16Noise(params, 3.2))
+	for _, batched := range []bool{true, false} {
+		// the message: slot values (batched) or 2·slots real coefficients at the positions j·gap
+		pt := ckks.NewPlaintext(set.cp, lin)
+		pt.LogDimensions.Cols = logSlots
+		pt.IsBatched = batched
+		z := make([]complex128, slots) // the vector a decoding transform sees / the coefficient pairs
+		for i := range z {
+			z[i] = complex(float64(c.rng.Intn(2001)-1000)/1000, float64(c.rng.Intn(2001)-1000)/1000)
+		}
+		if batched {
+			if err := set.enc.Encode(z, pt); err != nil {
+				panic(err)
+			}
+		} else {
+			co := make([]float64, set.n)
+			for i := range z {
+				co[i*gap] = real(z[i])
+				co[(i+slots)*gap] = imag(z[i])
+			}
+			if err := set.enc.Encode(co, pt); err != nil {
+				panic(err)
+			}
+		}
+		ct := ckks.NewCiphertext(set.cp, 1, lin)
+		if err := rlwe.NewEncryptor(set.cp, keys.ideal).Encrypt(pt, ct); err != nil {
+			panic(err)
+		}
+		mdIn := *ct.MetaData
+		inScale := ct.Scale.Float64()
+		// the coefficient pairs of the input (what a non-decoding transform sees)
+		phaseIn := c16Phase(params, ct, keys.ideal)
+		pairs := make([]complex128, slots)
+		for i := range pairs {
+			re, _ := new(big.Float).SetInt(phaseIn[i*gap]).Float64()
+			im, _ := new(big.Float).SetInt(phaseIn[(i+slots)*gap]).Float64()
+			pairs[i] = complex(re/inScale, im/inScale)
+		}
+		for _, t := range tfs {
+			var tf *mpckks.MaskedLinearTransformationFunc
+			if !t.isNil {
+				tf = &mpckks.MaskedLinearTransformationFunc{Decode: t.decode, Func: t.f, Encode: t.encode}
+			}
+			label := fmt.Sprintf("ckks set=%s out=%s N=%d lin=%d lout=%d logSlots=%d input_IsBatched=%t transform=%s", set.name, oset.name, n, lin, lout, logSlots, batched, t.name)
+			refuse := !t.isNil && ((t.decode && !batched) || (t.encode && !t.decode && batched))
+			detail := Try(func() string {
+				proto, err := mpckks.NewMaskedLinearTransformationProtocol(set.cp, oset.cp, 64, flood)
+				if err != nil {
+					return "constructor_error"
+				}
+				crp := proto.SampleCRP(lout, crs)
+				var acc multiparty.RefreshShare
+				for i := 0; i < n; i++ {
+					p := proto
+					if i > 0 {
+						p = proto.ShallowCopy()
+					}
+					sh := p.AllocateShare(lin, lout)
+					err := p.GenShare(keys.sk[i], okeys.sk[i], logBound, ct, crp, tf, &sh)
+					if refuse {
+						if err == nil {
+							return "GenShare_accepts_a_combination_documented_as_refused"
+						}
+						// Transform must refuse too (with a share carrying the ciphertext's metadata)
+						sh.MetaData = *ct.MetaData
+						out := ckks.NewCiphertext(oset.cp, 1, oset.maxQ())
+						if err := p.Transform(ct.CopyNew(), tf, crp, sh, out); err == nil {
+							return "Transform_accepts_a_combination_documented_as_refused"
+						}
+						return ""
+					}
+					if err != nil {
+						return "GenShare_error:" + strings.ReplaceAll(err.Error(), " ", "_")
+					}
+					if i == 0 {
+						acc = sh
+					} else if err := p.AggregateShares(&acc, &sh, &acc); err != nil {
+						return "AggregateShares_error:" + strings.ReplaceAll(err.Error(), " ", "_")
+					}
+				}
+				out := ckks.NewCiphertext(oset.cp, 1, oset.maxQ())
+				// the receiver arrives with the opposite flags: nothing of its metadata may survive
+				out.IsBatched = !batched
+				out.Scale = rlwe.NewScale(3)
+				ctIn := ct.CopyNew()
+				if err := proto.Transform(ctIn, tf, crp, acc, out); err != nil {
+					return "Transform_error:" + strings.ReplaceAll(err.Error(), " ", "_")
+				}
+				if !ctIn.MetaData.Equal(&mdIn) || !ctIn.Equal(ct) {
+					return "Transform_modified_the_input_ciphertext"
+				}
+				// metadata
+				wantBatched := batched
+				if !t.isNil {
+					wantBatched = t.encode
+				}
+				if out.IsBatched != wantBatched {
+					return fmt.Sprintf("output_IsBatched=%t_want_%t_(=transform.Encode;_the_input's_flag_for_a_nil_transform)", out.IsBatched, wantBatched)
+				}
+				if out.LogDimensions != mdIn.LogDimensions {
+					return fmt.Sprintf("output_LogDimensions=%v_want_%v", out.LogDimensions, mdIn.LogDimensions)
+				}
+				if out.Scale.Cmp(oset.cp.DefaultScale()) != 0 {
+					return "output_Scale_is_not_the_default_scale_of_the_output_parameters"
+				}
+				if out.IsNTT != mdIn.IsNTT || out.IsMontgomery != mdIn.IsMontgomery {
+					return "output_IsNTT/IsMontgomery_differ_from_the_input's"
+				}
+				if out.Level() != lout {
+					return fmt.Sprintf("output_level=%d_want_%d", out.Level(), lout)
+				}
+				// value
+				in := pairs
+				if !t.isNil && t.decode {
+					in = z // (only reached for a batched input: its slot values)
+				}
+				w := make([]*bignum.Complex, slots)
+				for i := range w {
+					w[i] = &bignum.Complex{new(big.Float).SetFloat64(real(in[i])), new(big.Float).SetFloat64(imag(in[i]))}
+				}
+				if !t.isNil {
+					t.f(w)
+				}
+				outScale := oset.cp.DefaultScale().Float64()
+				ratio := outScale / inScale
+				nb := float64(int64(n)*Bn)*(ratio+1) + float64(n) + 2 + float64(set.n)*21
+				tol := nb*float64(set.n)*4/outScale + 1e-6
+				have := make([]complex128, slots)
+				asSlots := !t.isNil && t.encode
+				if asSlots {
+					// f(z) as slot values, decoded as such whatever the label says
+					ptOut := rlwe.NewDecryptor(oset.cp, okeys.ideal).DecryptNew(out)
+					ptOut.IsBatched = true
+					if err := oset.enc.Decode(ptOut, have); err != nil {
+						return "decode_error"
+					}
+				} else {
+					ph := c16Phase(oparams, out, okeys.ideal)
+					for i := range have {
+						re, _ := new(big.Float).SetInt(ph[i*gap]).Float64()
+						im, _ := new(big.Float).SetInt(ph[(i+slots)*gap]).Float64()
+						have[i] = complex(re/outScale, im/outScale)
+					}
+				}
+				for i := range w {
+					re, _ := w[i][0].Float64()
+					im, _ := w[i][1].Float64()
+					if math.Abs(re-real(have[i])) > tol || math.Abs(im-imag(have[i])) > tol {
+						return fmt.Sprintf("position_%d:_output_holds_%.4f_want_f(message)=%.4f+%.4fi_(tolerance_%.2g)", i, have[i], re, im, tol)
+					}
+				}
+				// decoding through the API with the metadata AS RETURNED gives the same values
+				ptOut := rlwe.NewDecryptor(oset.cp, okeys.ideal).DecryptNew(out)
+				if ptOut.IsBatched {
+					ref := have
+					if !asSlots {
+						ref = z // (nil transform on a slot-encoded input: the slot values themselves)
+					}
+					got := make([]complex128, slots)
+					if err := oset.enc.Decode(ptOut, got); err != nil {
+						return "decode_error_with_the_returned_metadata"
+					}
+					for i := range got {
+						if cmplx.Abs(got[i]-ref[i]) > 3*tol {
+							return fmt.Sprintf("decoded_with_the_returned_metadata_slot_%d_differs_from_the_content", i)
+						}
+					}
+				} else if lout == oset.maxQ() { // (the coefficient decoder is exercised at the top level only)
+					got := make([]float64, oset.n)
+					if err := oset.enc.Decode(ptOut, got); err != nil {
+						return "decode_error_with_the_returned_metadata"
+					}
+					for i := range have {
+						if math.Abs(got[i*gap]-real(have[i])) > 2*tol || math.Abs(got[(i+slots)*gap]-imag(have[i])) > 2*tol {
+							return fmt.Sprintf("decoded_with_the_returned_metadata_coefficient_%d_differs_from_the_content", i)
+						}
+					}
+				}
+				return ""
+			})
+			name := "transform_flag_matrix"
+			if refuse {
+				name = "transform_flag_refused"
+			}
+			c.Probe(name, label, "C16-ckks-transform-flags", detail)
+		}
+	}
 }
